@@ -27,7 +27,7 @@ func checkC04(c *Ctx) {
 	c04model(c, "C04.R2", "C04.R3")
 	c.exhaust = true
 	checkAxisDiscipline(c, "C04.R5", "geom", "index/rtree", "op")
-	c.Floor("C04.R5", 3)
+	c.Floor("C04.R5", 2)
 	c.Floor("C04.R1", 7)
 	c.Floor("C04.R2", 16)
 	c.Floor("C04.R3", 8)
